@@ -77,12 +77,12 @@ def iteration_start(b, pos):
     return (best[0], 0) if best else (0, 0)
 
 
-def guarded_by_true(b, site, call_pos, negate=False):
+def guarded_by_true(b, site, call_pos, negate=False, proj=None):
     """True iff every path from the start of the loop iteration (or the function entry) to `site` takes the TRUE edge of
     the switch that tests the boolean result of the call at call_pos (FALSE edge when negate).  Sound for bool results
     tested directly (switchInt on the result or a copy); a `!` in between must be expressed through negate."""
     from flow import switch_edges_on_call_result, must_pass
-    sw = switch_edges_on_call_result(b, call_pos)
+    sw = switch_edges_on_call_result(b, call_pos, proj)
     if not sw:
         return False
     blk, ts, els = sw
